@@ -378,6 +378,11 @@ def run_harnesses(harnesses, found, jobs=8, progress=None):
     budget = float(os.environ.get("VERIF_MEM_GB", "52"))
     cv = threading.Condition()
     state = {"used": 0.0}
+    # optional (non-core) harnesses are only started within VERIF_OPTIONAL_DEADLINE_S seconds of
+    # the start of the run (default 3 h); later ones are reported as not explored
+    t_start = time.time()
+    deadline = float(os.environ.get("VERIF_OPTIONAL_DEADLINE_S", "10800"))
+    harnesses = sorted(harnesses, key=lambda h: (not h.core))   # core first (stable)
 
     def one(h):
         need = min(float(h.mem_gb or 8), budget)
@@ -386,6 +391,14 @@ def run_harnesses(harnesses, found, jobs=8, progress=None):
                 cv.wait()
             state["used"] += need
         try:
+            if not h.core and time.time() - t_start > deadline:
+                r = {"harness": h.name, "verdict": "skipped", "detail": "optional harness not started: the run's deadline for optional harnesses (%.0f s) had passed" % deadline,
+                     "core": False, "wall_s": 0.0}
+                with lock:
+                    results.append(r)
+                    if progress:
+                        progress(r)
+                return r
             return _one(h)
         finally:
             with cv:
